@@ -330,6 +330,49 @@ def step (_ : Unit) (w : List String) : Unit × String :=
       let zero : Src := if src.isFloat then .flt (.fin false 0 0) else .int 0
       ((), fmtVal tgt (convNull src tgt true) (convNull src tgt false) true ++ " | S " ++ altsVal (expected src tgt zero) (some tgt.size))
     | _, _ => ((), "bad-op")
+  | ["c", "vnull", s, t] =>
+    -- `mpt_value_convert` of a value whose address is NULL
+    match Ty.ofName s, Ty.ofName t with
+    | some src, some tgt =>
+      let zero : Src := if src.isFloat then .flt (.fin false 0 0) else .int 0
+      ((), fmtVal tgt (valueConvertNull src tgt true) (valueConvertNull src tgt false) ++ " | S " ++ altsVal (expected src tgt zero))
+    | _, _ => ((), "bad-op")
+  | ["c", "ftoken", t, hex, alts] =>
+    -- one token of a text file through the file iterator; S as for `text` / `ftext` with the whole word as operand
+    match Ty.ofName t, parseHex hex, parseAlts alts with
+    | some tgt, some bs, some al =>
+      let s := cstr (bs.map (·.toNat))
+      if tgt = .c ∨ s = [] ∨ s.any isSpace ∨ s.length ≠ bs.length then ((), "bad-op") else
+      let f := fileToken tgt (strtoF (tgtCTy tgt).fmt al s) s
+      let spec : String :=
+        if tgt.isFloat then
+          let oks := (List.range (s.length + 1)).filterMap fun k =>
+            match al.find? (·.1 = k) with
+            | some (_, v) => if v = "ovf" ∨ v = "-ovf" ∨ altInexact v ∨ tgt = .e then none else some s!"dst=ok out={v} nodst=ok ; *"
+            | none => none
+          " || ".intercalate (oks ++ ["dst=refused out=- nodst=refused ; *"])
+        else
+          let oks := (List.range (s.length + 1)).filterMap fun k =>
+            match numeral (s.take k) with
+            | some v => if inRange tgt v then some s!"dst=ok out={outText tgt (.int (v % tgt.card).toNat)} nodst=ok ; *" else none
+            | none => none
+          " || ".intercalate (oks.eraseDups ++ ["dst=refused out=- nodst=refused ; *"])
+      ((), fmtVal tgt (f true) (f false) ++ " | S " ++ spec)
+    | _, _, _ => ((), "bad-op")
+  | ["c", "argvreset", s, v1, v2] =>
+    -- two values of one type through a variadic call: read both, reset the iterator, read both again
+    match Ty.ofName s with
+    | some src =>
+      if src ∉ [Ty.i, .u, .x, .t, .d] then ((), "bad-op") else
+      match parseSrc src v1, parseSrc src v2 with
+      | some a, some b =>
+        let rd := fun x => match argvConsume src src x true with
+          | .ok (some o, _) => outText src o
+          | _ => "-"
+        let l := s!"first={rd a},{rd b} reset=2 again={rd a},{rd b}"
+        ((), s!"R {l} | C - | I ret=0 | S {l} ; *")
+      | _, _ => ((), "bad-op")
+    | none => ((), "bad-op")
   | ["c", "skip", s, v] =>
     -- `mpt_iterator_consume(it, 0, 0)`: no conversion, the iterator advances and the type of the skipped value is returned
     match Ty.ofName s with
